@@ -22,7 +22,6 @@ All output goes to a `tempfile.mkdtemp` scratch directory that is removed afterw
 """
 from __future__ import annotations
 
-import builtins  # noqa: F401
 import hashlib
 import io
 import itertools
@@ -693,6 +692,23 @@ def matches_model(rec, m_trace, m_fs):
     return True, ""
 
 
+PENDING = []   # failures of runs that behave exactly as the as-is model; registered once all runs are in
+
+
+def flush_pending(chk: Check, verdicts):
+    """The known findings describe the pinned tree.  A tree is either as-is or repaired: if some
+    runs of this invocation match the as-is model and others the repaired one, the tree is
+    neither (e.g. a partial repair / partial regression) and nothing is routed to a known finding."""
+    mixture = "asis" in verdicts and "repaired" in verdicts
+    if mixture and PENDING:
+        chk.disagree("all runs match ONE version of TrainTrace (as-is or repaired)",
+                     {"as_is_like": [p[1] for p in PENDING][:4]}, sorted(set(verdicts)), "one of: all asis / all repaired")
+    for what, case, slim, sig in PENDING:
+        chk.fail(what + (" [runs of this tree match different model versions]" if mixture else ""),
+                 case, slim, () if mixture else sig)
+    PENDING.clear()
+
+
 def check_case(chk: Check, case, rec=None):
     rec = rec or run_impl(case)
     rounds = rec["rounds"]
@@ -728,7 +744,7 @@ def check_case(chk: Check, case, rec=None):
                 sig = None
             if what == "artefact" and rec["exception"] is not None:
                 sig = ["run_id_on_structured_config"]
-            chk.fail(f"C19 fails: {detail}", case, slim, sig or ())
+            PENDING.append((f"C19 fails: {detail}", case, slim, list(sig or ())))
         if not bad:
             chk.disagree("ModelTrainer trace == TrainTrace.trace (repaired)", case, rec["trace"], rep_t)
         return rec, "asis"
@@ -780,12 +796,17 @@ def main(chk: Check):
         rec, verdict = check_case(chk, case)
         verdicts[i] = (verdict, rec)
         chk.tag(f"verdict={verdict}")
-    # known findings: the witnesses were executed above on the real code
-    rec = verdicts[0][1]
-    chk.known_replay("F-C19", still_fails=any(b["hits"] for b in rec["boundaries"]),
-                     detail="no crash point of the witness run has the key on disk")
-    rec = verdicts[1][1]
-    chk.known_replay("F-C19b", still_fails=bool(rec["exception"]), detail="witness run completes")
+    vs = [v for v, _ in verdicts.values()]
+    flush_pending(chk, vs)
+    pinned = "repaired" not in vs     # no run of this tree shows repaired behaviour
+    # known findings: the witnesses were executed above on the real code; "still fails" = the run is
+    # the as-is model's run (anything else that fails was reported above as an ordinary violation)
+    v, rec = verdicts[0]
+    chk.known_replay("F-C19", still_fails=(pinned and v == "asis" and any(b["hits"] for b in rec["boundaries"])),
+                     detail="witness run: " + ("no crash point has the key on disk" if v == "repaired" else f"behaves as {v}"))
+    v, rec = verdicts[1]
+    chk.known_replay("F-C19b", still_fails=(pinned and v == "asis" and bool(rec["exception"])),
+                     detail="witness run: " + ("completes" if v == "repaired" else f"behaves as {v}"))
     chk.extra["runs_matching_repaired_model"] = sum(1 for v, _ in verdicts.values() if v == "repaired")
     chk.extra["runs_matching_asIs_model"] = sum(1 for v, _ in verdicts.values() if v == "asis")
 
@@ -794,6 +815,7 @@ def replay(chk: Check, payload):
     import_repo()
     case = payload.get("case") or payload["disagreements"][0]["case"]
     rec, verdict = check_case(chk, case)
+    flush_pending(chk, [verdict])
     print(f"replay case={case} verdict={verdict}\n trace={rec['trace']}\n exception={rec['exception']}\n"
           f" leaking boundaries={[b for b in rec['boundaries'] if b['hits']][:4]}\n oracle={oracle(rec)}")
 
